@@ -39,6 +39,7 @@ class TokPE(pe.PE):
         self.byte_domain = byte_domain
         self.loop_widen = 6
         self.memo_joins = True
+        self.overrides = {}      # tokener field name -> initial expression (for rules that make a data field a root)
 
     SIGNIFICANT = ("printbuf_memappend", "json_object_new_object", "json_object_new_array", "json_object_new_string_len",
                    "json_object_new_double", "json_object_new_double_s", "json_object_new_int64", "json_object_new_uint64",
@@ -64,6 +65,9 @@ class TokPE(pe.PE):
             if el != 0 or len(fl) > 1:
                 return pe.TOP
             k = fl[0] if fl else 0
+            for oname, oval in self.overrides.items():
+                if k == F[oname]:
+                    return oval
             if k == F["depth"]:
                 return pe.C(depth)
             if k == F["max_depth"]:
@@ -205,12 +209,16 @@ class Table:
         self.trans = {}     # config -> [Outcome]
         self.stats = {"configs": 0, "leaves": 0, "steps": 0}
 
-    def step(self, cfg, byte_domain=None, length=1):
+    def step(self, cfg, byte_domain=None, length=1, overrides=None, roots=None, keep_state=False):
         """all outcomes of one call from configuration cfg"""
         h = TokPE(self.prog, self.F, self.S, cfg, self.flags, self.max_depth, length,
                   byte_domain if byte_domain is not None else range(-128, 128))
+        if overrides:
+            h.overrides = dict(overrides)
         h.deadline = getattr(self, "deadline", None)
         st = pe.State()
+        for rname, dom in (roots or {}).items():
+            st.roots[rname] = frozenset(dom)
         args = [("ptr", "tok", ()), ("ptr", "input", ()), pe.C(length)]
         leaves = h.run(self.fn, args, st)
         self.stats["leaves"] += len(leaves)
@@ -229,6 +237,7 @@ class Table:
             o.next = self._next_config(s, cfg)
             o.appends = []
             o.calls = []
+            o.stores = s if keep_state else None
             o.lookahead = any(e[0] == "lookahead" for e in s.trace)
             o.gloads = sorted({e[1] for e in s.trace if e[0] == "gload"})
             o.pbstores = sum(1 for e in s.trace if e[0] == "pbstore")
@@ -239,6 +248,8 @@ class Table:
                         o.appends.append(self._append_desc(e, s))
             outs.append(o)
         # merge leaves that differ only in the path taken through opaque (unknown-result) calls
+        if keep_state:
+            return outs
         merged = {}
         for o in outs:
             key = (o.bytes, o.err, o.ret_nonnull, o.consumed, o.next, json.dumps(o.appends, sort_keys=True), tuple(sorted(set(o.calls))), o.lookahead, tuple(o.gloads), o.pbstores)
